@@ -156,6 +156,11 @@ impl RunStats {
 
 #[derive(Clone, Debug, Default)]
 pub struct RunOpts {
+    /// the property whose check this run serves: the run ends at the first violation tagged with
+    /// it (or at any violation after which the heap cannot be trusted); violations of *other*
+    /// properties that leave the heap structurally intact are noted and the run goes on, so that
+    /// this property's own symptoms can still be observed. `None`: end at the first violation.
+    pub own: Option<String>,
     /// evaluate the expensive part of C17 (formatting, map lookups) after every step
     pub deep_c17: bool,
     /// record per-step request / callback counts (needed by the sweeps)
@@ -1061,6 +1066,7 @@ pub fn run_case(slots_n: usize, heap_cfg: &super::heapcfg::HeapCfg, fail_run_req
     let mut fp = Digest::new();
     let mut executed = Vec::new();
     let mut violation = None;
+    let mut first_other: Option<Violation> = None;
     let mut idx = 0usize;
     // blocks on which some handle was shortened while the buffer was shared (stale bytes behind it)
     let mut stale_blocks = std::collections::BTreeSet::new();
@@ -1139,9 +1145,35 @@ pub fn run_case(slots_n: usize, heap_cfg: &super::heapcfg::HeapCfg, fail_run_req
         fp.byte(d.faults().min(2) as u8);
         executed.push(st);
         idx += 1;
-        if v.is_some() {
-            violation = v;
-            break;
+        if let Some(v) = v {
+            let is_own = opts.own.as_deref().is_none_or(|p| v.has_prop(p));
+            if is_own || !survivable(&v.invariant) {
+                violation = Some(v);
+                break;
+            }
+            if first_other.is_none() {
+                first_other = Some(v);
+            }
+            // carry on from what the crate really holds, so that one divergence is not re-reported
+            // at every later step
+            for (slot, m) in w.slots.iter().zip(w.models.iter_mut()) {
+                match slot {
+                    None => *m = None,
+                    Some(h) => {
+                        if let Ok(t) = std::str::from_utf8(h.as_bytes()) {
+                            match m {
+                                Some(m) => {
+                                    if m.text != t {
+                                        m.text = t.to_string();
+                                        m.static_of = None;
+                                    }
+                                }
+                                None => *m = Some(Model::new(t.to_string())),
+                            }
+                        }
+                    }
+                }
+            }
         }
     }
     // end of run: everything is dropped, nothing may remain allocated
@@ -1169,11 +1201,56 @@ pub fn run_case(slots_n: usize, heap_cfg: &super::heapcfg::HeapCfg, fail_run_req
             violation = Some(mk(hv.kind, hv.detail));
         } else if live != 0 {
             violation = Some(mk("leaked_block", format!("{live} block(s) still allocated after every handle was dropped")));
-        } else if stats.counters.alloc > 0 {
+        } else if stats.counters.alloc > 0 && first_other.is_none() {
             stats.relevant("C03");
         }
+        // an end-of-run finding that is not this check's own yields to an earlier noted one
+        if let (Some(v), Some(o)) = (&violation, &first_other) {
+            if !opts.own.as_deref().is_none_or(|p| v.has_prop(p)) {
+                violation = Some(o.clone());
+            }
+        }
     }
+    let violation = violation.or(first_other);
     RunReport { violation, stats, digest: digest.finish(), fingerprint: fp.finish(), executed }
+}
+
+/// Can the run go on after this violation (of another property)? Only if the heap and every handle
+/// are still structurally sound: anything that may have written or freed where it must not is fatal.
+fn survivable(invariant: &str) -> bool {
+    matches!(
+        invariant,
+        // (a reference count that disagrees with the live handles is *not* survivable: the next
+        // drop or write would free or overwrite memory under a reader)
+        "leaked_block"
+            | "text_mismatch"
+            | "result_mismatch"
+            | "index_panic_mismatch"
+            | "panic_state_mismatch"
+            | "other_handle_changed"
+            | "spurious_alloc_failure"
+            | "try_form_panicked"
+            | "failed_op_changed_target"
+            | "rejected_index_had_effect"
+            | "clone_allocated"
+            | "clone_not_shared"
+            | "clone_differs"
+            | "short_text_on_heap"
+            | "long_text_not_exact"
+            | "inline_edit_allocated"
+            | "static_allocated"
+            | "static_copied"
+            | "with_capacity_postcondition"
+            | "reserve_postcondition"
+            | "append_within_capacity_reallocated"
+            | "growth_bounds"
+            | "shrink_postcondition"
+            | "eq_hash_vs_str"
+            | "fmt_vs_str"
+            | "views_vs_str"
+            | "pair_eq_ord_hash"
+            | "map_lookup_by_str"
+    )
 }
 
 fn fix_slots(op: &mut Op, n: usize) {
